@@ -26,6 +26,7 @@ import CtyModel.Lemmas.JsonValRT
 import CtyModel.Lemmas.JsonValReject
 import CtyModel.Lemmas.JsonValDoc
 import CtyModel.Lemmas.JsonValMirror
+import CtyModel.Lemmas.JsonValEquals
 namespace CtyModel
 namespace C15
 open Ty JsonVal
@@ -62,6 +63,24 @@ theorem roundtrip_partial (env : JEnv) (top : Bool) (v : Value) (t : Ty)
   obtain ⟨j, p', hj, hu, hsame⟩ := rt_entry env v.v t v.ty hr hx
     (fun t' a b c => rt_body env v.v t' v.ty a b c)
   exact ⟨j, ⟨v.ty, p'⟩, hj, hu top, rfl, hsame⟩
+
+/-- … and "equal" in the sense of the code: the transliteration of `Value.Equals`
+(`Value.equals`, the model C01–C03 diff against the implementation) answers a known `True`
+for the decoded value and the original. -/
+theorem roundtrip_partial_equals (env : JEnv) (top : Bool) (v : Value) (t : Ty)
+    (h : rtHyps env v t = true) (hs : setFree v.ty = true) (hx : exact t v.ty v.v = true) :
+    ∃ j v', marshal env v t = .ok j ∧ unmarshal env top j t = .ok v' ∧ v'.ty = v.ty ∧
+      Value.equals v' v = .ok (Value.boolVal true) := by
+  obtain ⟨j, v', hj, hu, hty, hsame⟩ := roundtrip_partial env top v t h hs hx
+  have h' := h
+  simp only [rtHyps, Bool.and_eq_true, Bool.not_eq_true'] at h'
+  obtain ⟨⟨⟨⟨⟨⟨⟨⟨⟨⟨_, h2⟩, _⟩, h4⟩, _⟩, _⟩, h7⟩, h8⟩, _⟩, _⟩, _⟩ := h'
+  refine ⟨j, v', hj, hu, hty, ?_⟩
+  have := equals_of_same v.ty v'.v v.v hsame h2 hs h4 h7 h8
+  cases v'
+  simp only at hty
+  subst hty
+  exact this
 
 /-- the same, as the check the harness evaluates -/
 theorem roundtrip_partial_check (env : JEnv) (top : Bool) (v : Value) (t : Ty)
